@@ -211,6 +211,32 @@ def evaluate_doc(case):
                           f'{L.element_language(ctx, bad[0]) if bad else None!r}'))
     for e in els:
         kinds.add(source_of(ctx, e))
+    # the program edits the pragma (or a lang attribute) and asks again: the answer is that of the document as it is now
+    metas = [e for e in els if e.name == 'meta' and e.get('content') is not None]
+    edited = False
+    if metas and not fails:
+        metas[0]['content'] = 'zz-Edit' if metas[0]['content'] != 'zz-Edit' else 'yy'
+        edited = True
+    elif els and not fails and case['ranges']:
+        els[0]['lang'] = 'zz-Edit'
+        edited = True
+    if edited:
+        ctx2 = R.Ctx(doc.target)
+        for rng in (['zz-*'], ['*'], case['ranges'][0]):
+            text, pred = selector_for(rng)
+            exp = [e for e in els if pred(L.element_language(ctx2, e))]
+            try:
+                got = sv.select(text, doc.target)
+            except Exception as e:  # noqa: BLE001
+                fails.append(('raises-' + type(e).__name__, f'{text!r} after an edit: {e!r:.200}'))
+                continue
+            n += 1
+            if [id(x) for x in got] != [id(x) for x in exp]:
+                o = {id(e): i for i, e in enumerate(els)}
+                fails.append(('language-after-document-edit',
+                              f'{text!r} after the pragma content / a lang attribute of the {case["flavour"]} document was changed '
+                              f'to {str(doc.target)[:300]!r}: soupsieve {[o.get(id(x)) for x in got]} reference {[o.get(id(x)) for x in exp]}'))
+                break
     return fails, kinds, n
 
 
